@@ -272,9 +272,11 @@ struct InlinePrintAmount<'a, 'ctx>(&'a Amount<'ctx>);
 
 impl Display for InlinePrintAmount<'_, '_> {
     fn fmt(&self, f: &mut std::fmt::Formatter<'_>) -> std::fmt::Result {
-        let vs = &self.0.values;
+        // sort by commodity so that the output doesn't depend on HashMap iteration order.
+        let mut vs: Vec<_> = self.0.values.iter().collect();
+        vs.sort_unstable_by_key(|(c, _)| c.as_str());
         match vs.len() {
-            0 | 1 => match vs.iter().next() {
+            0 | 1 => match vs.first() {
                 Some((c, v)) => write!(f, "{} {}", v, c.as_str()),
                 None => write!(f, "0"),
             },
